@@ -947,13 +947,19 @@ def check_C50(ctx):
     res = {x["id"]: x for x in read_ndjson(rf) if not x.get("summary")}
     if len(res) != len(rows):
         raise Infra("driver returned %d results for %d cases" % (len(res), len(rows)))
-    harness = [(x, res[x["id"]]) for x in rows if res[x["id"]].get("other")]
+    for x in rows:                      # initializer shapes: `bad` plays the role of "not permitted"
+        if x["kind"] == "initshape":
+            x["permitted"] = not x["bad"]
+    # an initializer-shape program rejected with FieldReinitializationError may carry follow-up errors (resource loss ...)
+    harness = [(x, res[x["id"]]) for x in rows if res[x["id"]].get("other")
+               and not (x["kind"] == "initshape" and res[x["id"]].get("access"))]
     if harness:
         x, v = harness[0]
         raise Infra("C50 renderer: %d case(s) rejected for reasons outside the property, e.g. %s -> %s\n%s"
                     % (len(harness), {k: x[k] for k in x if k != "id"}, v["other"], v.get("src", "")[-3000:]))
     n_perm = n_deny = 0
     classes = set()
+    shape_stats = {"rows": 0, "accepted_good": 0, "rejected_bad": 0, "over_rejections": 0, "runs_failed": 0}
     for x in rows:
         v = res[x["id"]]
         if x["permitted"]:
@@ -964,6 +970,31 @@ def check_C50(ctx):
             classes.add((x["site"], x["cont"], x["mod"], x["mkind"], x["op"], x["via"] in ("self", "o", "oo", "name")))
         elif x["kind"] == "inh":
             classes.add(("inherited", x["where"], x["mod"], x["mkind"], x["site"]))
+        elif x["kind"] == "initshape":
+            classes.add(("initshape", x["first"], x["jump"], x["second"], x["fkind"]))
+        if x["kind"] == "initshape":
+            two = sorted(e for e, n in (v.get("writes") or {}).items() if n >= 2)
+            shape_stats["rows"] += 1
+            shape_stats["runs_failed"] += len(v.get("runerr") or {})
+            if not v["accept"] and not x["bad"]:
+                shape_stats["over_rejections"] += 1        # rejected although no path assigns twice: not a C50 violation
+                continue
+            if not v["accept"]:
+                shape_stats["rejected_bad"] += 1
+                continue
+            if not x["bad"] and not two:
+                shape_stats["accepted_good"] += 1
+                continue
+            # accepted although some path assigns the let field twice (or a second write was observed at run time)
+            dev = ("DevMaybeInitialisedNotTracked" if x["first"] in ("ifthen", "elseonly", "switch") else
+                   "DevInitLoopBodyOnce" if x["first"] == "while" else "none")
+            sig = {"kind": "initshape", "first": x["first"], "jump": x["jump"], "second": x["second"], "fkind": x["fkind"],
+                   "checker": "accepts", "deviation": dev, "observed": "two-writes:" + ",".join(two) if two else "none",
+                   "model_bad": x["bad"]}
+            ctx.report(sig, "initializer shape %s: a path assigns the let field twice (model bad=%s), checker ACCEPTS; "
+                            "writes observed in one construction: %s\n%s" % ({k: x[k] for k in ("first", "jump", "second", "fkind")},
+                            x["bad"], v.get("writes"), v.get("src", "")[-1200:]), {"case": x, "checker": v})
+            continue
         if v["accept"] == x["permitted"]:
             continue
         sig = {k: x[k] for k in x if k not in ("id",)}
@@ -979,7 +1010,7 @@ def check_C50(ctx):
     return ctx.finish({
         "traces_validated_against_impl": len(rows),
         "evaluations": len(rows),
-        "permitted_rows": n_perm, "denied_rows": n_deny,
+        "permitted_rows": n_perm, "denied_rows": n_deny, "initializer_shapes": shape_stats,
         "distinct_nontrivial": len(classes),
         "rule": "rows of the table enumerated by TLC from Access.tla (site x container x composite kind x modifier x member kind x path x operation, "
                 "plus the initializer family); distinct = (site, container, modifier, member kind, operation, owned-vs-reference path) classes; "
